@@ -22,8 +22,8 @@ type Pkt struct {
 	Ty    int      `json:"ty"`
 	Min   int      `json:"min"`
 	Fl    int      `json:"fl"`
-	Rd    string   `json:"rd"`  // ok | short | badhdr | oversize | mismatch | eof
-	Ops   []string `json:"ops"` // what the handler does if this packet is dispatched
+	Rd    string   `json:"rd"`              // ok | short | badhdr | oversize | mismatch | eof
+	Ops   []string `json:"ops"`             // what the handler does if this packet is dispatched
 	Body  []int    `json:"body,omitempty"`  // clear body override
 	CKey  []int    `json:"ckey,omitempty"`  // client key override (key mismatch experiments)
 	Rsz   int      `json:"rsz,omitempty"`   // reply body size target
@@ -38,11 +38,12 @@ type Scen struct {
 	Key  []int  `json:"key,omitempty"`
 	Pkts []Pkt  `json:"pkts"`
 	// stream mode (C05): all packets are written as one byte stream cut into chunks
-	Stream bool   `json:"stream,omitempty"`
-	Cuts   []int  `json:"cuts,omitempty"` // chunk sizes; the rest goes into a final chunk
-	End    string `json:"end,omitempty"`  // idle | eof | fire
-	Trunc  int    `json:"trunc,omitempty"` // cut this many octets off the end of the stream
-	Proxy  bool   `json:"proxy,omitempty"` // the connection goes to a server started with SetUseProxy(true)
+	Stream bool    `json:"stream,omitempty"`
+	Cuts   []int   `json:"cuts,omitempty"`  // chunk sizes; the rest goes into a final chunk
+	End    string  `json:"end,omitempty"`   // idle | eof | fire
+	Trunc  int     `json:"trunc,omitempty"` // cut this many octets off the end of the stream
+	Proxy  bool    `json:"proxy,omitempty"` // the connection goes to a server started with SetUseProxy(true)
+	Sids   []int64 `json:"sids,omitempty"`  // session ids of this scenario (default: the run's pool of four random ids)
 }
 
 // ---- the runner ----------------------------------------------------------------------
@@ -57,6 +58,7 @@ type chaosRun struct {
 	cancel  context.CancelFunc
 	done    chan struct{}
 	sidPool []uint32
+	curSids []uint32 // the running scenario's own session ids, if it names them
 	defKey  []byte
 	rng     *rand.Rand
 	// current scenario state (scenarios run one at a time)
@@ -288,6 +290,9 @@ func (r *chaosRun) hook(ev string, args ...interface{}) {
 
 func (r *chaosRun) packetBytes(p *Pkt) (hdr []byte, wire []byte, clear []byte) {
 	sid := r.sidPool[p.Sid%len(r.sidPool)]
+	if r.curSids != nil {
+		sid = r.curSids[p.Sid%len(r.curSids)]
+	}
 	maj := 12
 	min := p.Min
 	ty := p.Ty
@@ -377,6 +382,10 @@ func (r *chaosRun) runScenario(sc, next *Scen) {
 	}
 	r.curPkt = nil
 	r.feedIdx = 0
+	r.curSids = nil
+	for _, x := range sc.Sids {
+		r.curSids = append(r.curSids, uint32(x))
+	}
 	r.base = ReadG4()
 	r.rec.Emit(E{"e": "reset", "sc": sc.ID, "key": B(logKey)})
 	conn := NewFakeConn(r.nconn, &net.TCPAddr{IP: net.ParseIP("10.1.2.3"), Port: 1000 + r.nconn%60000}, r.rec)
